@@ -292,8 +292,11 @@ func (p *Policy) sanitize(r io.Reader, w io.Writer) error {
 
 			if len(token.Attr) == 0 {
 				if !p.allowNoAttrs(token.Data) {
-					skipClosingTag = true
-					closingTagToSkipStack = append(closingTagToSkipStack, token.Data)
+					// void elements have no closing tag to skip
+					if !voidElement(token.Data) {
+						skipClosingTag = true
+						closingTagToSkipStack = append(closingTagToSkipStack, token.Data)
+					}
 					if p.addSpaces {
 						if _, err := buff.WriteString(" "); err != nil {
 							return err
@@ -983,6 +986,18 @@ func (p *Policy) validURL(rawurl string) (string, bool) {
 	}
 
 	return rawurl, true
+}
+
+// voidElement returns true for elements that never have an end tag
+func voidElement(elementName string) bool {
+	switch elementName {
+	case "area", "base", "basefont", "bgsound", "br", "col", "embed", "frame",
+		"hr", "img", "input", "keygen", "link", "meta", "param", "source",
+		"track", "wbr":
+		return true
+	default:
+		return false
+	}
 }
 
 func linkable(elementName string) bool {
